@@ -40,6 +40,10 @@ pub struct Case {
     /// (the timestamp version always does)
     pub snap_bump: [bool; 2],
     pub targets_bump: [bool; 2],
+    /// the current repository (state 3) comes with a root v2 that replaces the timestamp and the
+    /// snapshot keys: the interrupted cycle then also unlinks the stored timestamp.json / snapshot.json
+    #[serde(default)]
+    pub rotate: bool,
 }
 
 fn state(case: &Case, k: usize) -> forge::Built {
@@ -53,6 +57,12 @@ fn state(case: &Case, k: usize) -> forge::Built {
     s.snap_version = bumps(&both);
     s.targets_version = tv;
     s.targets = vec![("a.txt".into(), format!("a{tv}").into_bytes())];
+    if case.rotate && k == 3 {
+        let mut r2 = forge::RootSpec::basic(2, case.consistent);
+        r2.timestamp = forge::RoleKeys::one(8);
+        r2.snapshot = forge::RoleKeys::one(9);
+        s.roots = vec![forge::RootSpec::basic(1, case.consistent), r2];
+    }
     if case.delegated {
         let mut d = DelegNode::new("d1", 4, PathSpec::Paths(vec!["d/*".into()]));
         d.targets = vec![("d/x".into(), b"x".to_vec())];
@@ -335,6 +345,9 @@ pub fn prop_with(case: &Case, known_truncate: bool) -> Outcome {
             }
             landed += 1;
             o.label(format!("fault:{fname}"));
+            if c.name.starts_with("unlink") {
+                o.label("unlink-faulted");
+            }
             // (a) replayed older repository must be refused; (b) the current one must load
             let a = w.join(format!("a-{ci}-{fname}"));
             let b = w.join(format!("b-{ci}-{fname}"));
@@ -349,13 +362,21 @@ pub fn prop_with(case: &Case, known_truncate: bool) -> Outcome {
                 v.sort();
                 v
             };
-            if ra.is_ok() {
+            // With a root that replaces the timestamp and snapshot keys the stored timestamp/snapshot
+            // stop protecting (C03's exemption, C14); the stored targets.json (keys unchanged) still
+            // does. The replay must then fail only if it lowers the targets version.
+            let replay_must_fail = !case.rotate || case.targets_bump[0];
+            if case.rotate {
+                o.label(if replay_must_fail { "rotation:targets-rollback-replayed" } else { "rotation:replay-either" });
+            }
+            if ra.is_ok() && replay_must_fail {
                 // signature of the known finding: a stored role file was left empty
                 let truncation = ["timestamp.json", "snapshot.json", "targets.json"].iter().any(|f| std::fs::metadata(ds.join(f)).map(|m| m.len() == 0).unwrap_or(false));
                 let msg = format!(
-                    "after {fname} at datastore call #{ci} `{} {}` of the interrupted cycle, a replayed OLDER repository (timestamp v1, trusted before: v2) is accepted; datastore left behind: {:?} [{KF_TRUNCATE}]",
+                    "after {fname} at datastore call #{ci} `{} {}` of the interrupted cycle, a replayed OLDER repository (timestamp v1, trusted before: v2; targets version lower: {}) is accepted; datastore left behind: {:?} [{KF_TRUNCATE}]",
                     c.name,
                     c.file,
+                    case.targets_bump[0],
                     listing()
                 );
                 if known_truncate && truncation {
@@ -395,10 +416,23 @@ fn cases(tier_thorough: bool) -> Vec<Case> {
         for delegated in [false, true] {
             for sb in [[false, false], [true, true], [false, true]] {
                 for tb in [[false, false], [false, true]] {
-                    v.push(Case { consistent, delegated, snap_bump: sb, targets_bump: tb });
+                    v.push(Case { consistent, delegated, snap_bump: sb, targets_bump: tb, rotate: false });
                 }
             }
         }
+    }
+    // histories in which the interrupted cycle walks to a root that replaces the timestamp and
+    // snapshot keys (so that it also unlinks stored files)
+    let mut rot = Vec::new();
+    for consistent in [false, true] {
+        for tb in [[true, false], [false, false], [true, true]] {
+            for delegated in [false, true] {
+                rot.push(Case { consistent, delegated, snap_bump: [true, true], targets_bump: tb, rotate: true });
+            }
+        }
+    }
+    if !tier_thorough {
+        rot.retain(|c| !c.delegated && c.targets_bump != [true, true]);
     }
     if !tier_thorough {
         // quick: the 8 histories in which only the timestamp moves between the replayed and the
@@ -406,6 +440,7 @@ fn cases(tier_thorough: bool) -> Vec<Case> {
         v.retain(|c| (!c.snap_bump[0] && !c.targets_bump[0]) || (c.consistent && c.delegated));
         v.truncate(12);
     }
+    v.extend(rot);
     v
 }
 
@@ -419,10 +454,10 @@ pub fn check(ctx: &Ctx) -> Vec<PartReport> {
         ctx,
         PartSpec {
             name: "fault-points",
-            rule: "histories (both snapshot modes, with/without a delegated role, snapshot/targets versions moving or not between the replayed, the trusted and the current state; 12 in quick, 24 in thorough): successful cycle, then the next cycle interrupted at EVERY file-system call it issues on the datastore directory (enumerated from a recorded trace of that very cycle) by SIGKILL on entry, EIO, and for creating/writing calls ENOSPC (evaluations count injected runs; a run whose own trace does not show the fault on the expected call is inconclusive), then (a) a cycle against the replayed older repository must fail and (b) a cycle against the current repository must succeed, each on a copy of the datastore the interrupted client left behind. Non-trivial: every history; distinct = history",
+            rule: "histories (both snapshot modes, with/without a delegated role, snapshot/targets versions moving or not between the replayed, the trusted and the current state; 12 in quick, 24 in thorough; plus 4 / 12 histories in which the interrupted cycle walks to a newer root that replaces the timestamp and snapshot keys and therefore also unlinks stored files: there the replay must fail only when it lowers the targets version): successful cycle, then the next cycle interrupted at EVERY file-system call it issues on the datastore directory (enumerated from a recorded trace of that very cycle) by SIGKILL on entry, EIO, and for creating/writing calls ENOSPC (evaluations count injected runs; a run whose own trace does not show the fault on the expected call is inconclusive), then (a) a cycle against the replayed older repository must fail and (b) a cycle against the current repository must succeed, each on a copy of the datastore the interrupted client left behind. Non-trivial: every history; distinct = history",
             mode: Mode::Enumerate { cases: cases(thorough), complete: true },
             prop: Box::new(move |c: &Case| prop_with(c, known)),
-            require: vec![("faults-landed", 2), ("fault:kill", 2), ("fault:eio", 2), ("fault:enospc", 2)],
+            require: vec![("faults-landed", 2), ("fault:kill", 2), ("fault:eio", 2), ("fault:enospc", 2), ("rotation:targets-rollback-replayed", 2), ("unlink-faulted", 2)],
         },
     )]
 }
@@ -436,7 +471,7 @@ pub fn probes(_ctx: &Ctx) -> Vec<super::Probe> {
     if !strace_available() {
         return vec![];
     }
-    let c = Case { consistent: false, delegated: false, snap_bump: [false, false], targets_bump: [false, false] };
+    let c = Case { consistent: false, delegated: false, snap_bump: [false, false], targets_bump: [false, false], rotate: false };
     let o = prop_with(&c, false);
     vec![super::Probe {
         key: KF_TRUNCATE.into(),
